@@ -197,6 +197,7 @@ func runConc(cs *Case, or concOracles) (w *World) {
 	w.sim.AddStalls(cs.Faults)
 	w.mergeYields = cs.Cfg.Prefill == nil || len(cs.Cfg.Prefill.KeepFull) == 0
 	w.capFor = map[int]*filterCapture{}
+	w.aggWatch = map[int]*aggWatch{}
 	for _, k := range cs.Muted {
 		if k > 0 && k < int(ptMax) {
 			w.sim.muted[k] = true
